@@ -281,8 +281,12 @@ fn run(op: &str, re: &Regex, text: &str, pos: usize, arg: usize) -> String {
             }
             s
         }
-        "replacen_noexpand" | "replacen_str" | "replacen_closure" | "replacen_dollar0" | "replacen_dollardollar" | "replacen_group1" | "replacen_braced" => {
+        "replacen_noexpand" | "replacen_str" | "replacen_closure" | "replacen_dollar0" | "replacen_dollardollar" | "replacen_group1" | "replacen_braced"
+        | "replacen_unicode_name" | "replacen_string" | "replacen_trailing_dollar" => {
             let r = match op {
+                "replacen_unicode_name" => re.try_replacen(text, arg, "<$\u{e9}x>"),
+                "replacen_string" => re.try_replacen(text, arg, String::from("x")),
+                "replacen_trailing_dollar" => re.try_replacen(text, arg, "a$"),
                 "replacen_noexpand" => re.try_replacen(text, arg, NoExpand("x")),
                 "replacen_str" => re.try_replacen(text, arg, "x"),
                 "replacen_closure" => re.try_replacen(text, arg, |_: &Captures| "x".to_string()),
@@ -307,7 +311,8 @@ fn run(op: &str, re: &Regex, text: &str, pos: usize, arg: usize) -> String {
             let _ = run("split", re, text, pos, arg);
             let _ = run("splitn", re, text, pos, 2);
             for n in 0..4 {
-                for op in ["replacen_noexpand", "replacen_str", "replacen_closure", "replacen_dollar0", "replacen_dollardollar", "replacen_group1", "replacen_braced"] {
+                for op in ["replacen_noexpand", "replacen_str", "replacen_closure", "replacen_dollar0", "replacen_dollardollar", "replacen_group1", "replacen_braced",
+                           "replacen_unicode_name", "replacen_string", "replacen_trailing_dollar"] {
                     let _ = run(op, re, text, pos, n);
                 }
             }
